@@ -201,6 +201,24 @@ def error_cases(ctx, A, C, R, rng, tier):
         expect = "returned" if mo.startswith("ok:") else mo[4:]
         if out != expect:
             ctx.violation("c19:coef_type:%s" % tok(ct), "completion_from_root_finding(coef_type=%r): %s, model %s" % (ct, out, mo), {"call": "completion_from_root_finding", "coef_type": ct})
+    # completion types derived mechanically from the valid names (substrings incl. the empty string, case changes, padding,
+    # doubling, and concatenations of two valid names), on inputs each valid type would complete: nothing but
+    # CompletionError is documented for an unknown type, whatever the polynomial
+    valid_ct = ["F", "f", "P", "p"]
+    derived_ct = sorted(set(variants(valid_ct)) | {a_ + b_ for a_ in valid_ct for b_ in valid_ct} | {"FPF", "Pf ", "f,p"})
+    completable = [("T_3 (P-type corner)", np.array([0.0, -3.0, 0.0, 4.0])), ("T_2 (P-type corner)", np.array([-1.0, 0.0, 2.0])),
+                   ("Laurent vector (F-type)", np.array([0.2, 0.3, 0.25])), ("complex corner", np.array([0.0, 1j]))]
+    for ct in derived_ct:
+        for pname, parr in completable:
+            out, val = classify(lambda: C.completion_from_root_finding(parr.copy(), coef_type=ct))
+            mo = drv.ask("pipe.completion %s 1 1" % tok(ct))
+            expect = "returned" if mo.startswith("ok:") else mo[4:]
+            ctx.count("derived-coef_type:" + out)
+            ctx.case(["derived-coef_type", ct, pname], True, {"coef_type": ct, "input": pname, "outcome": out, "model": mo})
+            if out != expect:
+                ctx.violation("c19:coef_type:derived", "completion_from_root_finding(%s, coef_type=%r): %s, documented (and model): %s" % (pname, ct, out, mo),
+                              {"call": "completion_from_root_finding", "coef_type": ct, "input": pname, "coefs": [str(z) for z in parr]})
+                break
     for so, me in (("Wq", None), ("Wx", "q"), ("", "x"), ("Wz", "")):
         out, val = classify(lambda: R.ComputeQSPResponse(np.array([0.1]), [0.1, 0.2], signal_operator=so, measurement=me))
         ctx.count("response-names:" + out)
